@@ -106,6 +106,14 @@ def run_children(ctx, exe, tmpdir, cases, batch=48, workers=None):
         list(ex.map(work, range(0, len(cases), batch)))
     return results
 
+def run_children_spread(ctx, exe, tmpdir, cases, rng):
+    """same, the cases being dealt to the children in random order so that the slow ones (time-outs) spread evenly"""
+    order = list(range(len(cases))); rng.shuffle(order)
+    res = run_children(ctx, exe, tmpdir, [cases[i] for i in order], batch=32)
+    out = [None] * len(cases)
+    for k, i in enumerate(order): out[i] = res[k]
+    return out
+
 def parse_impl(line):
     r = sx_parse(line)
     if r[0] == -3: return {'kind': 'timeout'}
@@ -191,15 +199,15 @@ LOC_SUBST = [b'x3', b'x0', b'x-1', b'z2000000000', b'sel2', b'code5', b'X1', b'z
 
 def prefixes(rng, data, quick):
     n = len(data)
-    if n <= (420 if quick else 3000): return list(range(n))
+    if n <= (260 if quick else 3000): return list(range(n))
     keep = set(range(0, 64)) | set(range(n - 24, n))
     for m in re.finditer(rb'\n', data):
         for d in (-2, -1, 0, 1, 2):
             if 0 <= m.start() + d < n: keep.add(m.start() + d)
-    extra = 150 if quick else 1200
+    extra = 60 if quick else 1200
     for _ in range(extra): keep.add(rng.randrange(n))
-    if quick and len(keep) > 500:
-        keep = set(rng.sample(sorted(keep), 500))
+    if quick and len(keep) > 220:
+        keep = set(rng.sample(sorted(keep), 220))
     return sorted(keep)
 
 def corruptions(rng, cls, data, quick):
@@ -213,9 +221,11 @@ def corruptions(rng, cls, data, quick):
     counts = [(a, b) for a, b in ints if re.match(rb'[ \t]*#', data[b:b + 4])] or ints[:6]
     others = [t for t in ints if t not in counts]
     pick_c = counts if not quick else counts[:10]
-    for a, b in pick_c:
+    for k, (a, b) in enumerate(pick_c):
         v = int(data[a:b])
         for w in [str(v + 1).encode(), str(v - 1).encode()] + INT_SUBST:
+            # huge counts may cost a 5 s time-out each: in the quick tier only on the first three count fields
+            if quick and w in (b'99999999999', b'2147483647') and (k >= 3 or (w == b'2147483647' and k >= 1)): continue
             out.append(('count:' + w.decode(), sub(a, b, w)))
     for a, b in rng.sample(others, min(len(others), 4 if quick else 30)):
         for w in rng.sample(INT_SUBST, 4 if quick else len(INT_SUBST)):
@@ -364,8 +374,12 @@ def check(ctx, quick, rng, runner, exe, tmpdir, proofs_ok):
     ctx.log('%d distinct cases' % len(cases))
 
     t0 = time.time()
-    impl = run_children(ctx, exe, tmpdir, [(c, d) for c, _, d in cases])
-    ctx.log('implementation: %d loads in child processes under ASan, %.1fs' % (len(cases), time.time() - t0))
+    impl = run_children_spread(ctx, exe, tmpdir, [(c, d) for c, _, d in cases], rng)
+    kinds = {}
+    for o in impl:
+        if o: kinds[o['kind']] = kinds.get(o['kind'], 0) + 1
+    ctx.cov['impl_outcome_kinds'] = kinds
+    ctx.log('implementation: %d loads in child processes under ASan, %.1fs, %s' % (len(cases), time.time() - t0, kinds))
     t0 = time.time()
     mi = [i for i, c in enumerate(cases) if c[0] in MODELLED]
     cf = write_cases(ctx, 'model', [[cases[i][0], CAP, BIGFUEL, list(cases[i][2])] for i in mi])
@@ -439,9 +453,7 @@ def check(ctx, quick, rng, runner, exe, tmpdir, proofs_ok):
         else:
             if generic_bad:
                 found_input = True
-                kind = oi.get('what', oi['kind']) if oi['kind'] != 'fail' and oi['kind'] != 'ok' else 'alloc-from-file-counts'
-                report('%s:%s%s' % (name, kind, (':' + oi['where']) if oi.get('where') else ''), '%s on a %s file (%s): %s' % (name, CLS[cls], lab, generic_bad),
-                       replay_of(cls, data, oi), len(data))
+                report(generic_key(cls, oi), '%s on a %s file (%s): %s' % (name, CLS[cls], lab, generic_bad), replay_of(cls, data, oi), len(data))
             elif oi['kind'] == 'ok':
                 stats['unmodelled_ok'] += 1
                 check_flags(cls, lab, data, oi, report, name)
@@ -462,12 +474,27 @@ def check(ctx, quick, rng, runner, exe, tmpdir, proofs_ok):
                        'theorems C09_*_fixed are about the readers WITH the candidate fixes fixes/C09_*.patch; for the code as it is the corresponding statements are refuted (C09_*_refuted)']
     ctx.level = 'proof (reader logic) + runtime evidence (memory safety downstream)'
 
+def generic_key(cls, oi):
+    """key of a failure observed on a class that has no reader model: the shared reader primitive when the sanitizer stops there,
+    else the class reader and the kind of failure"""
+    name = entry(cls)
+    rd = (CLS[cls] + '::_deserialize') if cls < 30 else name
+    if oi['kind'] == 'crash':
+        w = oi.get('where', '')
+        if oi['what'] in ('heap-buffer-overflow', 'SEGV') and '_recordReadVecInPlace' in w: return '_recordReadVecInPlace:store-past-end'
+        if oi['what'] in ('heap-buffer-overflow', 'SEGV') and '_recordReadVec' in w: return '_recordReadVec:store-past-end'
+        return '%s:%s%s' % (rd, oi['what'], (':' + w) if w else '')
+    if oi['kind'] == 'throw':
+        return rd + {1: ':alloc-from-file-counts', 2: ':negative-count'}.get(oi['code'], ':exception-escapes')
+    if oi['kind'] == 'timeout': return rd + ':no-answer-in-5s'
+    return rd + ':alloc-from-file-counts'
+
 def check_flags(cls, lab, data, oi, report, name):
     resave, reload_, idem, usable = oi['flags']
     if usable != 1: report('%s:object-not-printable' % name, '%s returns an object whose toString() throws, for a %s file (%s)' % (name, CLS[cls], lab), replay_of(cls, data, oi), len(data))
     elif resave != 1: report('%s:object-not-savable' % name, '%s returns an object that cannot be saved again (dumpToNF: %d), for a %s file (%s)' % (name, resave, CLS[cls], lab), replay_of(cls, data, oi), len(data))
     elif reload_ != 1: report('%s:saved-object-not-reloadable' % name, '%s returns an object whose saved file does not load, for a %s file (%s)' % (name, CLS[cls], lab), replay_of(cls, data, oi), len(data))
-    elif idem != 1: report('%s:save-reload-not-stable' % name, '%s returns an object that changes when saved and reloaded, for a %s file (%s)' % (name, CLS[cls], lab), replay_of(cls, data, oi), len(data))
+    # idem (the reloaded object saves to the same bytes) is the business of C08: reported in the evidence only
 
 def illformed_why(cls, d):
     if cls == 2:
